@@ -221,6 +221,27 @@ func checkC09(p *Prog, r *Report) {
 			fmt.Sprintf("%d functions in scope: no package variable or long-lived struct field is both written and read", len(scope)))
 	}
 
+	// D5b objects outside the module consulted without a Context
+	{
+		bad, allowed := contextFreeForeignCalls(p, scope)
+		for _, fc := range bad {
+			r.Fail(kp("STATE", "context-free-foreign-object:"+fc.Loc+"→"+fc.Name+"@"+FuncName(fc.Fn)), "block processing depends on the transaction, the block header and the stores only: objects implemented outside the module are consulted with a Context (reviewed exceptions: the codecs, the params subspace table)", p.Pos(fc.Instr.Pos()),
+				fmt.Sprintf("%s calls %s on %s (a %s held by a long-lived struct) without a Context: the answer cannot come from the stores at the block being processed — it is whatever this process has in memory (set by wiring, by an earlier call, lost or reset at restart), so two nodes can process the same block differently", FuncName(fc.Fn), fc.Name, fc.Loc, fc.Recv))
+		}
+		if len(bad) == 0 {
+			r.OK(kp("STATE", "context-free-foreign-object#none"), "block processing depends on the transaction, the block header and the stores only: objects implemented outside the module are consulted with a Context (reviewed exceptions: the codecs, the params subspace table)", "x/*, app/*",
+				fmt.Sprintf("%d functions in scope; %d context-free calls on held foreign objects, all on reviewed receiver types", len(scope), len(allowed)))
+		}
+		r.Floor("context-free-calls-on-reviewed-foreign-objects", len(allowed), 5)
+	}
+
+	// D5c committed stores only: what a memory or transient store holds depends on when this node last restarted / committed, and
+	// reading or re-warming it costs gas that other nodes do not pay
+	checkPersistentStoresOnly(p, r, kp, "its content — and the gas spent reading or rebuilding it — depends on when this node was last restarted: two nodes processing the same block report different gas, results or state")
+
+	// D2b no binary encoding of map-carrying messages (unordered.go)
+	checkNoUnorderedEncoding(p, r, kp, scope)
+
 	// D2 map ranges
 	nMap := 0
 	for _, fn := range scope {
